@@ -66,6 +66,12 @@ func (s *Selector) selectAllAncestorsForBuild(
 				depChain[0], depChainStr, config.Global.GetPlatform())
 		}
 
+		if ancestor.GetIsSelected() {
+			// Already selected, and with it all of its ancestors: walking it again
+			// for every path leading here is exponential on diamond-shaped graphs
+			continue
+		}
+
 		ancestor.Select()
 		if err := s.selectAllAncestorsForBuild(graph, nextChain, ancestor); err != nil {
 			return err
